@@ -69,6 +69,10 @@ def gen_lines(rng, w, cap, digs, n):
                 m = -m
             mu = (abs(m).bit_length() + w - 1) // w
             a = rng.choice([0, 1, abs(m) - 1, abs(m), abs(m) + 1, magnitude(rng, w, min(cap // 2 - 1, 2 * mu)), rng.bits(2 * mu * w)])
+            if v == "barrt" and rng.chance(1, 2) and mu >= 2:
+                # low mu+1 digits (almost) zero: the truncated difference of Barrett's final step wraps below zero
+                hi = rng.choice([1, rng.bits(w * (mu - 1)) + 1, (1 << (w * (mu - 1))) - 1, magnitude(rng, w, mu - 1) + 1])
+                a = (hi << (w * (mu + 1))) + rng.choice([0, 0, 1, 7, rng.bits(w)])
             if v in ("basic", "mod") and rng.chance(1, 3):
                 a = -a
             if v.startswith("monty") and v not in ("monty_conv",):
